@@ -7,18 +7,18 @@ import Thanos.Lemmas.DownsampleAggrLoop
 namespace Thanos.Downsample
 
 /-- window ends as multiples: `currentWindow t r = r * (t / r + 1) - 1` -/
-theorem currentWindow_mul {t r : Int} (ht : 0 ≤ t) : currentWindow t r = r * (t / r + 1) - 1 := by
-  rw [currentWindow_of_nonneg ht]
+theorem currentWindow_mul {t r : Int} (hr : 0 < r) : currentWindow t r = r * (t / r + 1) - 1 := by
+  rw [currentWindow_eq hr]
   have := Int.emod_add_mul_ediv t r
   rw [Int.mul_add]
   omega
 
 /-- windows of a resolution that is a multiple nest: the `r1`-window of `t` ends no later than
     its `k * r1`-window -/
-theorem currentWindow_nested {t r1 k : Int} (ht : 0 ≤ t) (hr : 0 < r1) (hk : 0 < k) :
+theorem currentWindow_nested {t r1 k : Int} (hr : 0 < r1) (hk : 0 < k) :
     currentWindow t r1 ≤ currentWindow t (k * r1) := by
   have hr2 : 0 < k * r1 := Int.mul_pos hk hr
-  rw [currentWindow_mul ht, currentWindow_mul ht]
+  rw [currentWindow_mul hr, currentWindow_mul hr2]
   have h1 : t < k * r1 * (t / (k * r1)) + k * r1 := Int.lt_mul_ediv_self_add hr2
   have h2 : t < (k * (t / (k * r1) + 1)) * r1 := by
     have : (k * (t / (k * r1) + 1)) * r1 = k * r1 * (t / (k * r1)) + k * r1 := by
@@ -31,16 +31,16 @@ theorem currentWindow_nested {t r1 k : Int} (ht : 0 ≤ t) (hr : 0 < r1) (hk : 0
   omega
 
 /-- a timestamp at or before a window end lies in that window or an earlier one -/
-theorem currentWindow_le_of_le {u x r : Int} (hu : 0 ≤ u) (hx : 0 ≤ x) (hr : 0 < r) (h : u ≤ currentWindow x r) :
+theorem currentWindow_le_of_le {u x r : Int} (hr : 0 < r) (h : u ≤ currentWindow x r) :
     currentWindow u r ≤ currentWindow x r := by
   by_cases hux : u ≤ x
-  · exact currentWindow_mono hu hux hr
+  · exact currentWindow_mono hux hr
   · have hxu : x ≤ u := by omega
     have hnot : ¬ u > currentWindow x r := by omega
     have : currentWindow u r = currentWindow x r := by
       apply Decidable.byContradiction
       intro hne
-      exact hnot ((gt_currentWindow_iff hx hxu hr).mpr hne)
+      exact hnot ((gt_currentWindow_iff hxu hr).mpr hne)
     omega
 
 /-- a list whose values never decrease sees no reset: its adjusted value is its last value -/
@@ -388,8 +388,10 @@ theorem aggrCounter_group (r1 k : Int) (hr1 : 0 < r1) (hk : 0 < k) (part : List 
   have hlp' : (groupBuf segs).getLast? = some (lt, lp.2) := by rw [hlp, ← hlp1]
   have hb0 : ∀ p ∈ groupBuf segs, 0 ≤ p.1 := fun p hp => by have := (b2 p hp).2.1; omega
   have hble : ∀ p ∈ groupBuf segs, p.1 ≤ lt := fun p hp => (b2 p hp).2.2
-  have hdb := downsampleBatch_runs (k * r1) hr2 (groupBuf segs) lt lp.2 hlp' hb0 (hbsorted.imp (fun h => Int.le_of_lt h))
-  have hctr := specEmit_counter (k * r1) hr2 (groupBuf segs) lt hb0 hbsorted hble (runs (k * r1) (groupBuf segs)) [] (by simp)
+  have hbm : ∀ p ∈ groupBuf segs, minInt64 < p.1 := fun p hp => by
+    have := hb0 p hp; have := minInt64_val; omega
+  have hdb := downsampleBatch_runs (k * r1) hr2 (groupBuf segs) lt lp.2 hlp' hbm (hbsorted.imp (fun h => Int.le_of_lt h))
+  have hctr := specEmit_counter (k * r1) hr2 (groupBuf segs) lt hbm hbsorted hble (runs (k * r1) (groupBuf segs)) [] (by simp)
   simp only [List.flatMap_nil, List.map_nil] at hctr
   -- 5. the adjusted counter of the buffer is the adjusted raw counter at every emission timestamp
   have hkey : ∀ t ∈ batchTs (k * r1) (groupBuf segs) lt, adjAt (groupBuf segs) t = adjAt (segs.flatMap (·.1)) t := by
@@ -408,7 +410,7 @@ theorem aggrCounter_group (r1 k : Int) (hr1 : 0 < r1) (hk : 0 < k) (part : List 
       rwa [runs_flatten] at this
     have hx0 := hb0 x hxb
     have hxlt := hble x hxb
-    have hxcw := currentWindow_ge hx0 hr2
+    have hxcw := currentWindow_ge (t := x.1) hr2
     apply adjAt_buf_eq _ _ _ b1 (fun p hp => (b2 p hp).1) b3
     · exact ⟨x, hxb, by simp only [Int.min_def]; split <;> omega⟩
     · intro u hu hut
@@ -421,8 +423,8 @@ theorem aggrCounter_group (r1 k : Int) (hr1 : 0 < r1) (hk : 0 < k) (part : List 
       have h1 : u.1 ≤ currentWindow x.1 (k * r1) := by
         rw [hxw]; have : min gr.1 lt ≤ gr.1 := by simp only [Int.min_def]; split <;> omega
         omega
-      have h2 := currentWindow_le_of_le hu0 hx0 hr2 h1
-      have h3 := currentWindow_nested (t := u.1) hu0 hr1 hk
+      have h2 := currentWindow_le_of_le hr2 h1
+      have h3 := currentWindow_nested (t := u.1) hr1 hk
       have h4 := hble pe hpe
       rw [← hxw]
       simp only [Int.min_def]; split <;> omega
@@ -444,9 +446,9 @@ theorem aggrCounter_group (r1 k : Int) (hr1 : 0 < r1) (hk : 0 < k) (part : List 
   · -- the emission timestamps: via the shape of downsampleFloatBatch on the buffer
     obtain ⟨c', hc'⟩ := floatBatch_isSome (k * r1) (groupBuf segs) (by intro h; rw [h] at b4; simp at b4)
     have hmax : lt < maxInt64 ∨ True := Or.inr trivial
-    have hcnt := (floatBatch_counter (k * r1) hr2 (groupBuf segs) lt lp.2 hlp' hb0 hbsorted c' hc').2
+    have hcnt := (floatBatch_counter (k * r1) hr2 (groupBuf segs) lt lp.2 hlp' hbm hbsorted c' hc').2
     -- timestamps facts from batchEmit
-    have hBok : BatchOK (groupBuf segs) t0 lt := ⟨⟨v0, b4⟩, ⟨lp.2, hlp'⟩, fun p hp => ⟨hb0 p hp, hble p hp⟩⟩
+    have hBok : BatchOK (groupBuf segs) t0 lt := ⟨⟨v0, b4⟩, ⟨lp.2, hlp'⟩, fun p hp => ⟨hbm p hp, hble p hp⟩⟩
     obtain ⟨q1, q2, q3⟩ := bOut_ts (k * r1) hr2 (groupBuf segs) t0 lt hBok
     have hbo : (bOut (k * r1) (groupBuf segs)).map (·.1) = batchTs (k * r1) (groupBuf segs) lt := by
       simp only [bOut, hdb]
@@ -471,7 +473,7 @@ theorem aggrCounter_group (r1 k : Int) (hr1 : 0 < r1) (hk : 0 < k) (part : List 
           have : lp ∈ (runs (k * r1) (groupBuf segs)).flatMap (·.2) := by rw [runs_flatten]; exact hlpb
           obtain ⟨gr, hgr, hlpg⟩ := List.mem_flatMap.mp this
           have hw := runs_window (k * r1) (groupBuf segs) gr hgr lp hlpg
-          have hcw := currentWindow_ge (hb0 lp hlpb) hr2
+          have hcw := currentWindow_ge (t := lp.1) hr2
           refine List.mem_map.mpr ⟨gr, hgr, ?_⟩
           rw [← hw, hlp1]
           rw [hlp1] at hcw
